@@ -554,4 +554,25 @@ theorem failed_source_no_terminator (o : SrcOutcome) :
     (o ≠ .ok → (writeBytesEnd o).failsRequest = true ∨ (writeBytesEnd o).closesConn = true) := by
   cases o <;> simp [writeBytesEnd]
 
+/-! ## the end of the connection inside a body -/
+
+/-- **A body cut off by the end of the connection is never reported complete.**  When
+`connection_lost` / `feed_eof` reaches the parser while a payload is in progress: a chunked
+body — *wherever* it stands, also exactly on a chunk boundary or inside the trailer section,
+whatever was buffered — is always an error (`TransferEncodingError`; only the terminating
+last-chunk + blank line, which removes the payload parser, ends a chunked body); a
+`Content-Length` body is an error as long as bytes are outstanding; only a close-delimited
+body ends (normally) there. -/
+theorem eof_inside_body (cfg : Http.Cfg) (urlOk : Bool → Bytes → Bool) (st : Http.St) (p : Http.PState)
+    (hf : st.failed = false) (hp : st.payload = some p) :
+    (p.type = .chunked → Http.feedEof cfg urlOk st = ([], some .transferEncoding)) ∧
+    (p.type = .length → p.length ≠ 0 → Http.feedEof cfg urlOk st = ([], some .contentLength)) ∧
+    (p.type = .untilEof → Http.feedEof cfg urlOk st = ([.eof], none)) := by
+  unfold Http.feedEof
+  simp only [hf, hp, Bool.false_eq_true, if_false]
+  refine ⟨?_, ?_, ?_⟩
+  · intro h; simp [h]
+  · intro h hn; simp [h, hn]
+  · intro h; simp [h]
+
 end Aio.C02
